@@ -45,6 +45,13 @@ def full_alphabet(ctx, keys, grid, vals):
         for g in gap:
             ops.append(('delitem', g))
             ops.append(('pop', g, 'D'))
+        # refused writes (must raise TypeError and leave a sound, unchanged container)
+        ops.append(('badkey', 'setitem', vals[0]))
+        ops.append(('badkey', 'update', vals[0]))
+        if O.bad_value(ctx.fam) is not None:
+            for k in (keys[0], keys[-1]) + tuple(gap):
+                ops.append(('badvalue', 'setitem', k))
+            ops.append(('badvalue', 'update', keys[len(keys) // 2]))
         ops.append(('update', 'dict', tuple(pairs)))
         ops.append(('update', 'pairs', tuple(reversed(pairs))))
         ops.append(('update', 'same', tuple(pairs[::2])))
@@ -56,6 +63,8 @@ def full_alphabet(ctx, keys, grid, vals):
         for g in gap:
             ops.append(('remove', g))
             ops.append(('discard', g))
+        ops.append(('badkey', 'add'))
+        ops.append(('badkey', 'update'))
         ops.append(('update', 'list', tuple(reversed(keys))))
         ops.append(('update', 'same', tuple(keys[::2])))
         for ip in ('ior', 'iand', 'isub', 'ixor'):
